@@ -68,6 +68,10 @@ template<class D, class Sx> static std::string copyInto(const Sx& x)
   { D a(x); D b(x); for (std::size_t i = 0; i < b.size(); ++i) b[i] = K(0); b = a; r.push_back(show(b)); }      // copy assignment
   { D a(x); D b(x); for (std::size_t i = 0; i < b.size(); ++i) b[i] = K(0); b = std::move(a); r.push_back(show(b)); }  // move assignment
   { D b(x); for (std::size_t i = 0; i < b.size(); ++i) b[i] = K(0); b = x; r.push_back(show(b)); }              // assignment from the other representation
+  { D a(x); D& ar = a; a = ar; r.push_back(show(a)); }                                                          // self-assignment
+  // (self-MOVE-assignment is not exercised: the standard library leaves a self-moved std::vector valid but unspecified)
+  { D a(x); D b(x); for (std::size_t i = 0; i < b.size(); ++i) b[i] = K(0); std::string z = show(b); using std::swap; swap(a, b);
+    r.push_back(show(b)); if (show(a) != z) r.push_back("swap lost the other operand"); swap(a, b); r.push_back(show(a)); }   // swap
   return same(r);
 }
 static std::string xcopy(const Case& cs, Cur& cu)
@@ -98,6 +102,9 @@ template<class D, class Sx> static std::string mcopyInto(const Sx& A)
   { D a(A); D b(std::move(a)); r.push_back(show(b)); }
   { D a(A); D b(A); b *= K(0); b = a; r.push_back(show(b)); }
   { D a(A); D b(A); b *= K(0); b = std::move(a); r.push_back(show(b)); }
+  { D a(A); D& ar = a; a = ar; r.push_back(show(a)); }                                                          // self-assignment
+  { D a(A); D b(A); b *= K(0); std::string z = show(b); using std::swap; swap(a, b);
+    r.push_back(show(b)); if (show(a) != z) r.push_back("swap lost the other operand"); swap(a, b); r.push_back(show(a)); }   // swap
   return same(r);
 }
 template<int n> static std::string xmcopyDiag(Cur& cu)
@@ -266,7 +273,7 @@ static std::string xone(const Case& cs, Cur& cu)
         s += b01(a == k); s += b01(a != k); s += b01(k == a); s += b01(k != a); s += b01(a == b); s += b01(a != b);
         return obs(s, show(a), show(b));
       }
-#if C01_FIELD == 0 || C01_FIELD == 1
+#if C01_FIELD == 0 || C01_FIELD == 1 || C01_FIELD == 3 || C01_FIELD == 4
       if (op == "xfv1cmp") {
         std::string s;
         s += b01(a > b); s += b01(a >= b); s += b01(a < b); s += b01(a <= b);
@@ -314,6 +321,7 @@ static std::string xhelp(const Case& cs, Cur& cu)
 
 // ---------------------------------------------------------------- xnorm: the norms that are exact on (Gaussian) integers
 #if C01_FIELD <= 2
+#define C01_HAS_NORMS 1
 template<class V> static std::string vnorms(const V& x)
 {
   std::vector<std::string> r;
@@ -625,9 +633,142 @@ static std::string xrecv(const Case& cs, Cur& cu)
   throw std::runtime_error("xr/xw need R == 1");
 }
 
+// ---------------------------------------------------------------- x?elem: the SCALAR argument is an entry of the receiver (passed by const reference)
+template<class V, class W> static std::string velem(const V& x, const W& y, int i0)
+{
+  V a(x), b(x), c(x), d(x), e(x);
+  a += a[i0]; b -= b[i0]; c *= c[i0]; d /= d[i0]; e.axpy(e[i0], y);
+  return obs(show(a) + "|" + show(b) + "|" + show(c) + "|" + show(d) + "|" + show(e), show(x), show(y));
+}
+template<class M, class MB> static std::string melem(const M& A, const MB& B, int i0, int j0)
+{
+  M a(A), b(A), c(A);
+  a *= a[i0][j0]; b /= b[i0][j0]; c.axpy(c[i0][j0], B);
+  return obs(show(a) + "|" + show(b) + "|" + show(c), show(A), show(B));
+}
+template<class M, class X, class Y> static std::string kelem(const M& A, const X& x, const Y& y, int i0, bool nk)
+{
+  Y y1(y), y2(y);
+  if (nk) { A.usmv(y1[i0], x, y1); return obs(show(y1), show(A), show(x)); }
+  A.usmtv(y1[i0], x, y1); A.usmhv(y2[i0], x, y2);
+  return obs(show(y1) + "|" + show(y2), show(A), show(x));
+}
+static std::string xelem(const Case& cs, Cur& cu)
+{
+  cu.next();
+  std::string out;
+  const int i0 = cs.p;
+  if (cs.op == "xvelem") {
+    if (cs.rep == "DV") { DV y(cs.r), x(cs.r); loadV(y, cs.r, cu); loadV(x, cs.r, cu); return velem(x, y, i0); }
+    if (cs.r != R) throw std::runtime_error("wrong TU");
+    FV<R> y, x; loadV(y, R, cu); loadV(x, R, cu); return velem(x, y, i0);
+  }
+  if (cs.op == "xdelem") {          // DiagonalMatrix op= its own diagonal entry
+    if (cs.r != R) throw std::runtime_error("wrong TU");
+    DG<R> D; loadD(D, cu); DG<R> a(D), b(D), c(D), d(D);
+    a += a.diagonal(i0); b -= b.diagonal(i0); c *= c.diagonal(i0); d /= d.diagonal(i0);
+    return obs(show(a) + "|" + show(b) + "|" + show(c) + "|" + show(d), show(D), "-");
+  }
+  if (cs.op == "xmelem") {
+    const int ii = cs.p / cs.c, jj = cs.p % cs.c;
+    if (cs.rep == "DM") { DM B(cs.r, cs.c), A(cs.r, cs.c); loadM(B, cs.r, cs.c, cu); loadM(A, cs.r, cs.c, cu); return melem(A, B, ii, jj); }
+    if (cs.r != R) throw std::runtime_error("wrong TU");
+    withDim(cs.c, [&](auto C) { constexpr int c = decltype(C)::value; FM<R, c> B, A; loadM(B, R, c, cu); loadM(A, R, c, cu); out = melem(A, B, ii, jj); });
+    return out;
+  }
+  // xkelemN / xkelemT: usmv / usmtv+usmhv with alpha = an entry of y
+  const bool nk = (cs.op == "xkelemN");
+  if (cs.rep == "DM") {
+    DM A(cs.r, cs.c); loadM(A, cs.r, cs.c, cu); const int xs = nk ? cs.c : cs.r, ys = nk ? cs.r : cs.c;
+    DV x(xs), y(ys); loadV(x, xs, cu); loadV(y, ys, cu); return kelem(A, x, y, i0, nk);
+  }
+  if (cs.r != R) throw std::runtime_error("wrong TU");
+  if (cs.rep == "DG") { DG<R> A; loadD(A, cu); FV<R> x, y; loadV(x, R, cu); loadV(y, R, cu); return kelem(A, x, y, i0, nk); }
+  withDim(cs.c, [&](auto C) {
+    constexpr int c = decltype(C)::value; FM<R, c> A; loadM(A, R, c, cu);
+    if (nk) { FV<c> x; FV<R> y; loadV(x, c, cu); loadV(y, R, cu); out = kelem(A, x, y, i0, nk); }
+    else { FV<R> x; FV<c> y; loadV(x, R, cu); loadV(y, c, cu); out = kelem(A, x, y, i0, nk); }
+  });
+  return out;
+}
+
+// ---------------------------------------------------------------- xmself: in-place matrix operations with the matrix itself as argument
+template<class M> static std::string mself(const M& A, const K& k)
+{
+  M a(A), b(A), c(A);
+  a += a; b -= b; c.axpy(k, c);
+  bool eq = (A == A);
+  return obs(show(a) + "|" + show(b) + "|" + show(c) + "|" + b01(eq), show(A), "-");
+}
+static std::string xmself(const Case& cs, Cur& cu)
+{
+  K k = cu.next(); std::string out;
+  if (cs.rep == "DM") { DM A(cs.r, cs.c); loadM(A, cs.r, cs.c, cu); return mself(A, k); }
+  if (cs.r != R) throw std::runtime_error("wrong TU");
+  if (cs.rep == "DG") { DG<R> D; loadD(D, cu); DG<R> a(D), b(D); a += a; b -= b; bool eq = (D == D); return obs(show(a) + "|" + show(b) + "|" + b01(eq), show(D), "-"); }
+  withDim(cs.c, [&](auto C) { constexpr int c = decltype(C)::value; FM<R, c> A; loadM(A, R, c, cu); out = mself(A, k); });
+  return out;
+}
+
+// ---------------------------------------------------------------- xhist: one object through a history of operations (re-use after resize / move / refill)
+static std::string xhist(const Case& cs, Cur& cu)
+{
+  K k = cu.next();
+  if (cs.rep == "DV") {
+    const int n = cs.r; DV x(n), y(n); loadV(x, n, cu); loadV(y, n, cu);
+    DV a(x); a += y; a.resize(n + 2, k); DV b(std::move(a));
+    a = y; a.axpy(k, x); a.resize(n); a.resize(1); a.resize(n, k); a -= x; a -= x;
+    return obs(show(a), show(b), show(x) + "|" + show(y));
+  }
+  // DynamicMatrix: the same kernel twice, resize with the DEFAULT value, refill, kernel on the new shape
+  const int r = cs.r, c = cs.c;
+  DM A(r, c); loadM(A, r, c, cu); DV x(c), y(r); loadV(x, c, cu); loadV(y, r, cu);
+  DV y1(y); A.umv(x, y1); A.umv(x, y1);
+  A.resize(c, r);
+  std::string zeros = show(A);
+  A = k; A[0][0] = y[0];
+  DV y2(x); A.umv(y, y2);
+  DM T = A.transposed(); T.resize(1, 1, k);
+  return obs(show(y1), show(y2), zeros + "|" + show(A) + "|" + show(T));
+}
+
+// ---------------------------------------------------------------- xalloc: DynamicVector with a stateful allocator
+template<class T> struct TrackAlloc
+{
+  using value_type = T;
+  int id;
+  explicit TrackAlloc(int i = 0) : id(i) {}
+  template<class U> TrackAlloc(const TrackAlloc<U>& o) : id(o.id) {}
+  T* allocate(std::size_t n) { return static_cast<T*>(::operator new(n * sizeof(T))); }
+  void deallocate(T* p, std::size_t) { ::operator delete(p); }
+  template<class U> bool operator==(const TrackAlloc<U>& o) const { return id == o.id; }
+  template<class U> bool operator!=(const TrackAlloc<U>& o) const { return id != o.id; }
+};
+static std::string xalloc(const Case& cs, Cur& cu)
+{
+  K k = cu.next();
+  const int n = cs.r;
+  DV x(n); loadV(x, n, cu);
+  using AV = DynamicVector<K, TrackAlloc<K>>;
+  AV a(n, k, TrackAlloc<K>(7));              // (n, c, allocator)
+  AV b(a);                                    // copy keeps the allocator
+  AV c(x, TrackAlloc<K>(9));                  // from another dense vector, with an allocator
+  AV d(n, TrackAlloc<K>(5));                  // (n, allocator): value-initialised
+  AV e{TrackAlloc<K>(3)};                     // (allocator): empty
+  c += a; d -= c; AV f(std::move(b));
+  std::string ids = std::to_string(a.container().get_allocator().id) + "," + std::to_string(f.container().get_allocator().id) + "," +
+                    std::to_string(c.container().get_allocator().id) + "," + std::to_string(d.container().get_allocator().id) + "," +
+                    std::to_string(e.container().get_allocator().id) + "," + std::to_string(e.size());
+  return obs(show(c), show(d), show(f) + "|" + ids);
+}
+
 static std::string runExtra(const Case& cs, Cur& cu)
 {
   const std::string& op = cs.op;
+  if (op == "xvelem" || op == "xmelem" || op == "xdelem" || op == "xkelemN" || op == "xkelemT") return xelem(cs, cu);
+  if (op == "xmself") return xmself(cs, cu);
+  if (op == "xhist") return xhist(cs, cu);
+  if (op == "xalloc") return xalloc(cs, cu);
   if (op.rfind("xr_", 0) == 0 || op.rfind("xw_", 0) == 0) return xrecv(cs, cu);
   if (op == "xvself") return xvself(cs, cu);
   if (op == "xselfleft" || op == "xselfright") return xselfmul(cs, cu);
@@ -640,7 +781,7 @@ static std::string runExtra(const Case& cs, Cur& cu)
 #endif
   if (op.rfind("xfm11", 0) == 0 || op.rfind("xfv1", 0) == 0) return xone(cs, cu);
   if (op.rfind("xhelp", 0) == 0 || op == "xdotfree") return xhelp(cs, cu);
-#if C01_FIELD <= 2
+#ifdef C01_HAS_NORMS
   if (op == "xnorm") return xnorm(cs, cu);
 #endif
   if (op == "xvaccess" || op == "xmaccess") return xaccess(cs, cu);
